@@ -72,6 +72,34 @@ class R_{uid}(Component):
     def up():
       s.out @= s.in_ * mult + offset
 
+class K_{uid}(Component):
+  def construct(s, n=0):
+    s.in_ = InPort(Bits8)
+    s.out = OutPort(Bits8)
+    # several BitStruct-valued constants kept as attributes and read in a block: each becomes a
+    # localparam; their declaration order must not depend on the process
+    s.kc_alpha = S_{uid}(1 + n, 2)
+    s.kc_b = S_{uid}(3, 4)
+    s.kc_gamma3 = S_{uid}(5, 6 + n)
+    s.kc_d0 = S_{uid}(7, 8)
+    s.kc_epsilon = S_{uid}(9, 1)
+    s.w = Wire(S_{uid})
+    @update
+    def up_sel():
+      if s.in_[0:2] == 0:
+        s.w @= s.kc_alpha
+      elif s.in_[0:2] == 1:
+        s.w @= s.kc_b
+      elif s.in_[0:2] == 2:
+        s.w @= s.kc_gamma3
+      elif s.in_[2:3] == 1:
+        s.w @= s.kc_d0
+      else:
+        s.w @= s.kc_epsilon
+    @update
+    def up():
+      s.out @= s.in_ + s.w.a + zext(s.w.b, 8)
+
 class Top_{uid}(Component):
   def construct(s):
     s.in_ = InPort(Bits8)
@@ -100,6 +128,8 @@ def gen_param_design(c, uid):
             "R_%s(8, offset=3)", "R_%s(8, 3)", "R_%s(8, 3, 2)", "R_%s(nbits=8, mult=3)"]
   if c.random() < 0.5:
     cands8 = cands8 + candsR * 2
+  if c.random() < 0.4:
+    cands8 = cands8 + ["K_%s()", "K_%s(1)", "K_%s(n=2)"] * 3
   cands16 = ["P_%s(Bits16, 1)", "P_%s(Bits16, 2)", "Q_%s(16, 2)", "Q_%s(16, 1)", "P_%s(Bits16, 1)"]
   for _ in range(c.randint(3, 7)):
     inst8.append(c.choice(cands8) % uid)
